@@ -166,13 +166,26 @@ class TermBuilder:
         parent = facts.bodies.get(parent_path) if facts else None
         if parent is None:
             return None
-        ptb = TermBuilder(parent)
+        ptb = TermBuilder(parent, closure_env=(getattr(parent, "kind", None) == "closure"))
         for bb in parent.reachable():
             for st in parent.stmts(bb):
                 if st["k"] == "assign" and st["rv"]["r"] == "agg" and st["rv"].get("ak") == "closure" and st["rv"].get("closure") == b.path:
                     env = {i: ptb.term(o, 2) for i, o in enumerate(st["rv"]["ops"])}
                     # closure handed to an iterator adaptor: its item argument is an element of the iterator
                     for c in parent.calls():
+                        mo = re.search(r"^std::(option::Option|result::Result)::<.*>::(map|and_then|filter|map_or|map_or_else|is_some_and|is_ok_and|inspect|map_err|or_else|unwrap_or_else)$", c.decl)
+                        if mo and len(c.args) >= 2:
+                            for lf in parent.origins(c.args[-1], passthrough={}):
+                                if lf["kind"] == "agg" and lf["stmt"] is st:
+                                    if mo.group(2) in ("map_err", "or_else", "unwrap_or_else") and mo.group(1).endswith("Result"):
+                                        var = "as Err"
+                                    elif mo.group(2) in ("or_else", "unwrap_or_else"):
+                                        var = None      # Option::or_else / unwrap_or_else: the closure takes no payload
+                                    else:
+                                        var = "as Some" if mo.group(1).endswith("Option") else "as Ok"
+                                    if var is not None:
+                                        env["item"] = simplify_proj(ptb.term(c.args[0], 2), (var, ".0"))
+                                        env["item_n"] = 2
                         if c.decl.startswith("std::iter::Iterator::") and len(c.args) >= 2:
                             for lf in parent.origins(c.args[-1], passthrough={}):
                                 if lf["kind"] == "agg" and lf["stmt"] is st:
